@@ -158,6 +158,17 @@ fn nan_eq(a: f32, b: f32) -> bool {
     a == b || (a.is_nan() && b.is_nan())
 }
 
+thread_local! {
+    /// when set, every case also keeps a second wrapper of the same kind alive (own inner object, own
+    /// external terminal, other data) and updates it before each update of the wrapper under test
+    static BYSTANDER: std::cell::Cell<bool> = std::cell::Cell::new(false);
+}
+fn run_case_by(kind: usize, seq: &[usize], e: &mut Eng) -> u64 {
+    BYSTANDER.with(|b| b.set(true));
+    let r = run_case(kind, seq, e);
+    BYSTANDER.with(|b| b.set(false));
+    r
+}
 /// kind 0: ActuatorWrapper, 1: GetterStateDeviceWrapper, 2: PIDWrapper
 fn run_case(kind: usize, seq: &[usize], e: &mut Eng) -> u64 {
     let n = seq.len();
@@ -166,6 +177,42 @@ fn run_case(kind: usize, seq: &[usize], e: &mut Eng) -> u64 {
         let x: Term = Terminal::new();
         let mut last_state_t = 0i64;
         let mut nontrivial = false;
+        // bystander: a second wrapper of the same kind with its own inner object and terminal
+        let x2: Term = Terminal::new();
+        let mut lst2 = 0i64;
+        let by_on = BYSTANDER.with(|b| b.get());
+        let (p2a, _s2a) = probe::<TerminalData>();
+        let mut by_a = if by_on && kind == 0 { Some(ActuatorWrapper::new(p2a)) } else { None };
+        let g2 = Rc::new(RefCell::new(GState { next: Ok(Some(Datum::new(Time(-123), State::new_raw(77.0, -88.0, 99.0)))), updates: 0, update_result: Ok(()) }));
+        let mut by_g = if by_on && kind == 1 { Some(GetterStateDeviceWrapper::new(ProbeGetter { st: g2.clone() })) } else { None };
+        let (p2p, _s2p) = probe::<f32>();
+        let mut by_p = if by_on && kind == 2 { Some(PIDWrapper::new(p2p, Time(S), State::new_raw(-20.0, 3.0, 0.0), Command::Position(-20.0), crate::c11::kvals())) } else { None };
+        if let Some(b) = by_a.as_ref() {
+            connect(b.get_terminal(), &x2);
+        }
+        if let Some(b) = by_g.as_ref() {
+            connect(b.get_terminal(), &x2);
+        }
+        if let Some(b) = by_p.as_ref() {
+            connect(b.get_terminal(), &x2);
+        }
+        let mut poke = |k: usize| {
+            if !by_on {
+                return;
+            }
+            // states only in most rounds (an encoder-style partner), other data than the main wrapper's
+            apply_partner(&x2, [1usize, 2, 0, 1, 4][k % 5], round_time(k) + 7, &mut lst2);
+            if let Some(b) = by_a.as_mut() {
+                let _ = b.update();
+            }
+            if let Some(b) = by_g.as_mut() {
+                g2.borrow_mut().next = Ok(Some(Datum::new(Time(-123 - k as i64), State::new_raw(77.0 + k as f32, -88.0, 99.0))));
+                let _ = b.update();
+            }
+            if let Some(b) = by_p.as_mut() {
+                let _ = b.update();
+            }
+        };
         match kind {
             0 => {
                 let (p, st) = probe::<TerminalData>();
@@ -181,6 +228,7 @@ fn run_case(kind: usize, seq: &[usize], e: &mut Eng) -> u64 {
                     let (log0, upd0) = (st.borrow().log.len(), st.borrow().updates);
                     st.borrow_mut().order.clear();
                     let own_before = (own_state(w.get_terminal()), own_cmd(w.get_terminal()));
+                    poke(k);
                     let res = w.update();
                     let s_ = st.borrow();
                     let order = String::from_utf8(s_.order.clone()).unwrap();
@@ -242,6 +290,7 @@ fn run_case(kind: usize, seq: &[usize], e: &mut Eng) -> u64 {
                     let upd0 = st.borrow().updates;
                     let own0 = (own_state(w.get_terminal()), own_cmd(w.get_terminal()));
                     let xown0 = (own_state(&x), own_cmd(&x));
+                    poke(k);
                     let res = w.update();
                     let own1 = (own_state(w.get_terminal()), own_cmd(w.get_terminal()));
                     let fail = |cls: &str, what: String| Err((cls.to_string(), k, format!("inner getter {:?}, inner update result {:?}; wrapper update() = {:?}, terminal own state {:?} -> {:?}: {}", inner, st.borrow().update_result, res, own0.0, own1.0, what)));
@@ -315,6 +364,7 @@ fn run_case(kind: usize, seq: &[usize], e: &mut Eng) -> u64 {
                         }
                     }
                     let expect = pid.get();
+                    poke(k);
                     let res = w.update();
                     let s_ = st.borrow();
                     let fail = |cls: &str, what: String| Err((cls.to_string(), k, format!("terminal saw {:?}; stand-alone CommandPID now outputs {:?}; motor log grew by {:?}, wrapper update() = {:?}: {}", seen, expect, &s_.log[log0..], res, what)));
@@ -420,6 +470,11 @@ pub fn run(ctx: &Ctx) -> Vec<Eng> {
             par_long(&mut e, nsym, 1, &LONG_LENS, budget, |seq, e| run_case(kind, seq, e));
             par_long(&mut e, NPART, 2, &LONG_LENS, budget, |seq, e| run_case(kind, seq, e));
         }
+        {
+            // the same with a second wrapper of the same kind alive and updated before every update
+            par_seqs(&mut e, nsym, depth_full.min(3), budget, |seq, e| run_case_by(kind, seq, e));
+            par_seqs(&mut e, NPART, depth_part.min(5), budget, |seq, e| run_case_by(kind, seq, e));
+        }
         if ctx.thorough {
             let cases = deviation_cases(hz, NPART - 1, 3);
             par_cases(&mut e, &cases, budget, |c, e| {
@@ -433,6 +488,7 @@ pub fn run(ctx: &Ctx) -> Vec<Eng> {
             });
         }
         e.bounds.push_str(&format!("; plus all {}-round sequences within {} deviations of the default round over the full alphabet, all 40-round sequences within 1 deviation{}", hz, k, if ctx.thorough { " and within 3 deviations over the partner options" } else { "" }));
+        e.bounds.push_str("; plus all 3-round sequences over the full alphabet and all 5-round sequences over the partner options with a second, independent wrapper of the same kind (own inner object, own terminal, other data) alive and updated before every update of the wrapper under test");
         e.bounds.push_str(&format!("; plus periodic sequences of 32 rounds with at most one deviation: every primitive word of length <= 2 over the full alphabet ({} sequences) and of length <= {} over the partner options ({} sequences)", periodic_count(nsym, 2, 32), if ctx.thorough { 4 } else { 3 }, periodic_count(NPART, if ctx.thorough { 4 } else { 3 }, 32)));
         out.push(e);
     }
